@@ -515,7 +515,7 @@ func valString(v Value) string {
 		return fmt.Sprintf("%q", v.String())
 	case *Term:
 		if v.isConst() {
-			p := &printer{defined: map[*Term]string{}, out: &strings.Builder{}}
+			p := &printer{defined: map[string]uint64{}, out: &strings.Builder{}}
 			return p.str(v)
 		}
 		return "<sym>"
